@@ -459,6 +459,8 @@ func Run(run *kernel.Run, prop string) {
 			w.opLongHistory(step)
 		case 8:
 			w.opWipeKeyBuffer(step)
+		case 9:
+			w.opPreHashBurst(step)
 		}
 		w.checkHeld(step)
 	}
@@ -469,12 +471,12 @@ func Run(run *kernel.Run, prop string) {
 
 func (w *World) opWeights() []int {
 	// kinds: ecdsa, variation, schnorr, sampler(hook), generatekey, drbg, schnorr-variation, long history
-	base := []int{8, 6, 3, 2, 1, 1, 1, 2, 1}
+	base := []int{8, 6, 3, 2, 1, 1, 1, 2, 1, 0}
 	switch w.prop {
 	case "C14":
-		base = []int{2, 1, 10, 0, 0, 0, 5, 0, 1}
+		base = []int{2, 1, 10, 0, 0, 0, 5, 0, 1, 1}
 	case "C08":
-		base = []int{10, 5, 1, 0, 1, 0, 0, 4, 1}
+		base = []int{10, 5, 1, 0, 1, 0, 0, 4, 1, 0}
 	}
 	// swarm: knock out or boost some kinds per run
 	out := make([]int, len(base))
@@ -498,4 +500,20 @@ func (w *World) opWeights() []int {
 		copy(out, base)
 	}
 	return out
+}
+
+// VerifyFirstWarmUp makes verifications the first thing the process does
+// with the library (BIP-340 test vector 0 and an ECDSA signature by d = 1):
+// nothing has derived a key or signed yet.
+func VerifyFirstWarmUp() {
+	pkb := ref.I2OSP32(ref.BaseMul(big.NewInt(3)).X)
+	if pk, err := bitcoin.NewSchnorrPublicKey(pkb); err == nil {
+		sig, _ := ref.BIP340Sign(big.NewInt(3), make([]byte, 32), make([]byte, 32))
+		_ = pk.Verify(make([]byte, 32), sig)
+	}
+	if pub, err := secec.NewPublicKey(ref.G().Compressed()); err == nil {
+		dg := bytes.Repeat([]byte{0x5a}, 32)
+		want, _ := ref.RFC6979Sign(big.NewInt(1), dg)
+		_ = pub.VerifyRaw(dg, mustScalar(want.R), mustScalar(want.S))
+	}
 }
